@@ -177,6 +177,7 @@ PROFILE = {
                 'ws_fail': 1, 'pong': 1, 'app_send': 2, 'app_disconnect': 3, 'advance': 2,
                 'fault': 1, 'vanish': 1, 'request': 9},
     'max_sessions': 3,
+    'proxy_headers': True,       # raw requests may carry Host / X-Forwarded-Proto / -Host
     # the message handler itself calls send() before returning (sometimes echoing text that
     # holds a lone surrogate)
     'reactions': [('echo', 30), ('echo-surrogate', 8)],
